@@ -479,6 +479,13 @@ def evaluate(run, want=None):
                     else:
                         if th.shape != raw.shape or not np.array_equal(stack.bits(th), stack.bits(raw)):
                             I.v("C09", "round %d: MRF of cluster %d is not the result of this round's optimisation task %d" % (r, k, k))
+                            # ... and then it is (almost surely) not the optimum for this cluster's covariance either
+                            rec_ = getattr(tr, "_ticcmon", None)
+                            if rec_ is not None and rec_.get("stopped") and th.shape == (NW, NW) and np.all(np.isfinite(th)):
+                                cert_ = tz.kkt_certificate(tz.upper_from_full(th), np.atleast_2d(S_k), run.lam_before, N, W, rec_["abstol"], rec_["reltol"])
+                                if not cert_["skipped"] and (cert_["ratio_kkt"] > 1.0 or cert_["ratio_toeplitz"] > 1.0):
+                                    I.v("C02", "round %d: the MRF carried by cluster %d fails the optimality certificate for that cluster's own "
+                                               "covariance (kkt ratio %.3g): it belongs to another task" % (r, k, cert_["ratio_kkt"]))
                     # C02 certificate on this task
                     rec = getattr(tr, "_ticcmon", None)
                     if rec is not None and rec.get("stopped"):
